@@ -341,6 +341,18 @@ class SmallUnique(Proxy):
         raise Unsupported("len() of np.unique of symbolic values")
 
 
+def _as_int_dim(n, what):
+    """A repeat / tile count used as a dimension: an integer (numpy refuses floats and negative counts)."""
+    if isinstance(n, bool) or kind_of(n) != "int":
+        raise TypeError("%s count must be an integer" % what)
+    if is_sym(n):
+        c = ctx()
+        c.oblige("%s.count_nonneg[%s]" % (what, c.fresh_name("rp")), n >= 0, kind="domain")
+    elif n < 0:
+        raise ValueError("negative dimensions are not allowed")
+    return n
+
+
 class _NP:
     pi = math.pi
     inf = math.inf
@@ -889,7 +901,8 @@ class _NP:
         return self.where(a)
 
     def flatnonzero(self, a):
-        return self.where(as_array(a).ravel())[0]
+        a = as_array(a)
+        return self.where(a if a.ndim == 1 else a.ravel())[0]  # (a 1-D mask keeps its label-membership tag)
 
     def split(self, ary, indices_or_sections, axis=0):
         """np.split of a 1-D array at a 1-D array (or list) of split points of concrete length: consecutive slices."""
@@ -1123,9 +1136,136 @@ class _NP:
         arrs = [as_array(x) for x in arrs]
         if axis in (-1, 1) and all(a.ndim == 1 for a in arrs):
             return self.column_stack(arrs)  # 1-D arrays stacked along a new last axis are the columns of an (n, k) matrix
-        if axis != 0:
-            raise Unsupported("stack(axis != 0)")
-        return from_list(arrs)
+        if axis == 0:
+            return from_list(arrs)
+        # arrays of one common shape joined along a NEW axis at position `axis`
+        _use("stack along a new inner axis")
+        rank = arrs[0].ndim
+        if any(a.ndim != rank for a in arrs):
+            raise ValueError("all input arrays must have the same shape")
+        ax = axis + rank + 1 if axis < 0 else axis
+        if not 0 <= ax <= rank:
+            raise ValueError("axis %r is out of bounds" % (axis,))
+        c = ctx()
+        for a in arrs[1:]:
+            for x, y in zip(arrs[0].shape, a.shape):
+                if not _same_dim(x, y):
+                    ok = dims_equal(x, y)
+                    if ok is False:
+                        raise ValueError("all input arrays must have the same shape")
+                    c.oblige("stack.shapes[%s]" % c.fresh_name("st"), ok, kind="domain")
+        from .arr import _join_kinds
+
+        snaps = [a.snapshot() for a in arrs]
+        n = len(arrs)
+        inner = tuple(arrs[0].shape)
+
+        def fn(idx):
+            j = idx[ax]
+            rest = tuple(idx[:ax]) + tuple(idx[ax + 1 :])
+            if not is_sym(j):
+                return snaps[j](*rest)
+            r = snaps[-1](*rest)
+            for t in range(n - 2, -1, -1):
+                r = ite(j == t, snaps[t](*rest), r)
+            return r
+
+        return new_array(inner[:ax] + (n,) + inner[ax:], fn, _join_kinds([a.kind for a in arrs]))
+
+    def diff(self, a, n=1, axis=-1):
+        """numpy.diff of a 1-D array: differences of consecutive entries."""
+        _use("diff")
+        a = as_array(a)
+        if n != 1 or a.ndim != 1 or axis not in (-1, 0):
+            raise Unsupported("diff with n != 1 / of a non 1-D array")
+        snap = a.snapshot()
+        m = concrete_value(a.shape[0])
+        length = max(int(m) - 1, 0) if m is not None else lift(vmax(_numeric(a.shape[0]) - 1, 0))
+        if a.kind == "b":
+            return new_array((length,), lambda idx: snap(idx[0] + 1) != snap(idx[0]), "b")
+        return new_array((length,), lambda idx: _numeric(snap(idx[0] + 1)) - _numeric(snap(idx[0])), a.kind)
+
+    def sort(self, a, axis=-1, kind=None):
+        """numpy.sort of a short 1-D array of concrete length: a compare-exchange network over its entries."""
+        _use("sort")
+        a = as_array(a)
+        m = concrete_value(a.shape[0]) if a.ndim == 1 else None
+        if m is None or int(m) > 6 or axis not in (-1, 0) or a.kind not in "if":
+            raise Unsupported("sort of an array of symbolic / large length")
+        xs = [_numeric(a.at(i)) for i in range(int(m))]
+        for i in range(len(xs)):
+            for j in range(len(xs) - 1 - i):
+                xs[j], xs[j + 1] = vmin(xs[j], xs[j + 1]), vmax(xs[j], xs[j + 1])
+        return from_list([lift(x) for x in xs], a.kind)
+
+    def repeat(self, a, repeats, axis=None):
+        """numpy.repeat with one scalar count: every element of the raveled input `repeats` times, in order."""
+        _use("repeat")
+        if axis is not None or _arrish(repeats):
+            raise Unsupported("repeat with an axis / per-element counts")
+        a = as_array(a).ravel()
+        n, r = a.shape[0], _as_int_dim(repeats, "repeat")
+        snap = a.snapshot()
+        return new_array((n * r,), lambda idx: snap(unflatten(idx[0], (n, r))[0]), a.kind)
+
+    def tile(self, a, reps):
+        """numpy.tile of a 1-D array with one scalar count: the whole array `reps` times, one copy after the other."""
+        _use("tile")
+        a = as_array(a)
+        if a.ndim != 1 or _arrish(reps) or isinstance(reps, (tuple, list)):
+            raise Unsupported("tile of a non 1-D array / with a tuple of counts")
+        n, r = a.shape[0], _as_int_dim(reps, "tile")
+        snap = a.snapshot()
+        return new_array((r * n,), lambda idx: snap(unflatten(idx[0], (r, n))[1]), a.kind)
+
+    def take(self, a, indices, axis=None, **kw):
+        """numpy.take along the first axis (or of the raveled array): plain integer indexing."""
+        _use("take")
+        if kw:
+            raise Unsupported("take with %s" % sorted(kw))
+        a = as_array(a)
+        if axis is None:
+            return a.ravel()[indices]
+        if axis == 0 or (axis == -1 and a.ndim == 1):
+            return a[indices]
+        raise Unsupported("take along an inner axis")
+
+    def broadcast_to(self, a, shape, subok=False):
+        """numpy.broadcast_to: a READ-ONLY array of the requested shape whose entries repeat those of the input."""
+        _use("broadcast_to")
+        a = as_array(a)
+        shape = tuple(shape) if isinstance(shape, (tuple, list)) else (shape,)
+        if a.ndim > len(shape):
+            raise ValueError("input operand has more dimensions than allowed by the axis remapping")
+        c = ctx()
+        off = len(shape) - a.ndim
+        for j, d in enumerate(a.shape):
+            if not is_sym(d) and d == 1:
+                continue
+            if not _same_dim(d, shape[off + j]):
+                ok = dims_equal(d, shape[off + j])
+                if ok is False:
+                    raise ValueError("operands could not be broadcast together with remapped shapes")
+                c.oblige("broadcast_to.shapes[%s]" % c.fresh_name("bt"), ok, kind="domain")
+        get = broadcast_getter(a, shape, "broadcast_to")
+        out = new_array(shape, lambda idx: get(idx), a.kind)
+        out.storage.readonly = True
+        return out
+
+    def block(self, arrays):
+        """numpy.block of a rectangular nested list of 2-D blocks: rows joined side by side, then stacked."""
+        _use("block")
+        if not isinstance(arrays, list) or not arrays:
+            raise Unsupported("block of %r" % type(arrays))
+        if all(isinstance(row, list) for row in arrays):
+            rows = [[as_array(b) for b in row] for row in arrays]
+            if any(b.ndim != 2 for row in rows for b in row):
+                raise Unsupported("block of non 2-D blocks")
+            return self.concatenate([self.concatenate(row, axis=1) if len(row) > 1 else row[0] for row in rows], axis=0) if len(rows) > 1 else self.concatenate(rows[0], axis=1)
+        if any(isinstance(row, list) for row in arrays):
+            raise ValueError("List depths are mismatched")
+        blocks = [as_array(b) for b in arrays]
+        return self.concatenate(blocks, axis=-1 if blocks[0].ndim else 0)
 
     def vstack(self, arrs):
         arrs = [as_array(x) for x in arrs]
@@ -1139,8 +1279,33 @@ class _NP:
             return self.concatenate(arrs)
         return self.concatenate(arrs, axis=1)
 
-    def count_nonzero(self, a):
-        raise Unsupported("count_nonzero")
+    def count_nonzero(self, a, axis=None):
+        """Number of entries that are non-zero / True."""
+        _use("count_nonzero")
+        if axis is not None:
+            raise Unsupported("count_nonzero along an axis")
+        a = as_array(a)
+        if a.kind == "b" and getattr(a, "_count_of", None) is not None:
+            return self.sum(a)
+        if a.kind == "b" and a.ndim == 1 and getattr(a, "_isin_of", None) is not None:
+            # a label-membership mask: its number of True entries is the cardinality of the selection np.where(a) makes
+            from .prelude_index import SymIndexArr, SymIndexSet
+
+            cs = a.snapshot()
+            iset = SymIndexSet(a.shape[0], lambda p: cs(p), "count_nonzero")
+            iset.isin_of = a._isin_of
+            return SymIndexArr(iset).size
+        a = a.ravel()
+        m = concrete_value(a.shape[0])
+        if m is not None:
+            tot = 0
+            for i in range(int(m)):
+                v = a.at(i)
+                tot = tot + ite(v if kind_of(v) == "bool" else _numeric(v) != 0, 1, 0)
+            return lift(tot)
+        if a.kind == "b":
+            return self.sum(a)  # the sum of a boolean array is its number of True entries (count facts in pyvc.sums)
+        raise Unsupported("count_nonzero of a non-boolean array of symbolic length")
 
     def hypot_(self):
         raise Unsupported("internal")
